@@ -1,5 +1,200 @@
-"""stub"""
+"""C12 — flattening multiplies branching fractions and keeps the leaves (DESIGN.md §4 C12)."""
+from __future__ import annotations
+
+import ast
+
+from ..core import guards
+from ..core import pyfacts as pf
+from ..core.effects import effects
+from ..core.match import phi_alts, txt
 from ..core.source import AnchorMissing
-PROP="C12"
+from .common import DECAY, ckey, enclosing, fn, returns, stmt_of, where
+
+PROP = "C12"
+FILES = [DECAY]
+EXPLANATION = (
+    "C12.1 effect analysis: flatten writes neither the chain nor its argument — every mutated object is a fresh local "
+    "(copy of the top-level final state, list of keys); C12.2 the substitution loop ranges over ALL non-stable decaying "
+    "particles (mother first) and repeats while any of them remains in the final state; C12.3 within one substitution the "
+    "multiplicity is read before any update and the same (particle, multiplicity) pair drives the exponent, the number of "
+    "daughter additions and the removal; C12.4 the result is a new chain {mother: DecayMode(product, leaves, **top-level "
+    "metadata)}; visible_bf is the flattened bf.")
+NOT_DECIDED = ["that the computed number equals the product over the tree and the multiset equals the leaves (arithmetic over runtime values): not applicable",
+               "order-independence as an equality of results"]
+F = "DecayChain.flatten"
+
+
 def run(ctx, ss):
-    raise AnchorMissing("rules not built yet")
+    for r, f in (("C12.1", c12_1), ("C12.2", c12_2), ("C12.3", c12_3), ("C12.4", c12_4)):
+        ctx.guard(r, f, ss)
+
+
+def c12_1(ctx, ss):
+    ef = effects(ss)
+    ff, flow = fn(ss, DECAY, F)
+    s = ef.sum[ff.key]
+    k = ckey(ff, None, "pure")
+    ctx.count("write_sites", len(ef.local[ff.key]))
+    bad = list(s.state_writes)
+    mp = [p for p in s.mutated_params if p != "self"]
+    if bad:
+        w = bad[0]
+        ctx.violation("C12.1", k, where(ff, w.node), f"flatten mutates the original chain: {w.how} on {w.root[0]} {w.root[1]}")
+    elif mp:
+        ctx.violation("C12.1", k, where(ff, ff.node), f"flatten mutates its argument {mp}")
+    else:
+        ctx.holds("C12.1", k, where(ff, ff.node), f"all {len(ef.local[ff.key])} write sites of flatten act on fresh locals", len(ef.local[ff.key]) + 1)
+    # the working final state is a copy of the top-level daughters
+    defs = [d for d in flow.defs if d.name == "fs" and d.kind == "assign"]
+    ok = len(defs) == 1 and txt(defs[0].value) in ("DaughtersDict(self.decays[self.mother].daughters)", "DaughtersDict(self.top_level_decay().daughters)",
+                                                  "copy(self.decays[self.mother].daughters)", "deepcopy(self.decays[self.mother].daughters)")
+    (ctx.holds if ok else ctx.violation)("C12.1", ckey(ff, None, "fs-copy"), where(ff, defs[0].stmt if defs else ff.node),
+                                          "the working final state is a copy of the top-level daughters" if ok
+                                          else f"the working final state is `{txt(defs[0].value) if defs else None}` (not a copy of the top-level daughters)")
+
+
+def _keys_alts(flow, name_node):
+    e = flow.expand(name_node)
+    return phi_alts(e)
+
+
+def c12_2(ctx, ss):
+    ff, flow = fn(ss, DECAY, F)
+    fors = [n for n in pf.walk_no_nested(ff.node) if isinstance(n, ast.For) and isinstance(n.target, ast.Name) and any(
+        isinstance(x, ast.AugAssign) for x in ast.walk(n))]
+    whiles = [n for n in pf.walk_no_nested(ff.node) if isinstance(n, ast.While)]
+    if len(whiles) != 1:
+        raise AnchorMissing("flatten: expected one while loop")
+    wl = whiles[0]
+    inner = [n for n in fors if any(n is x for x in ast.walk(wl))]
+    outer_for = [n for n in inner if not enclosing(ff, n, (ast.For,))]
+    if len(outer_for) != 1:
+        raise AnchorMissing("flatten: substitution for-loop not found")
+    lp = outer_for[0]
+    k = ckey(ff, None, "loop")
+    if not isinstance(lp.iter, ast.Name):
+        ctx.violation("C12.2", k + " :: all-keys", where(ff, lp), f"the substitution loop ranges over `{txt(lp.iter)}`: only part of the decaying particles is ever substituted")
+        return
+    kname = lp.iter.id
+    defs = [d for d in flow.defs if d.name == kname and d.kind == "assign"]
+    texts = sorted(txt(d.value) for d in defs)
+    want = sorted(["[k for k in self.decays if k not in stable_particles]", "list(self.decays.keys())"])
+    alt_ok = all(t in ("[k for k in self.decays if k not in stable_particles]", "list(self.decays.keys())", "list(self.decays)",
+                       "[k for k in self.decays.keys() if k not in stable_particles]") for t in texts) and texts
+    if alt_ok:
+        ctx.holds("C12.2", k + " :: all-keys", where(ff, lp), "keys = every decaying particle not declared stable; the loop ranges over all of them", len(defs) + 1)
+    else:
+        ctx.violation("C12.2", k + " :: all-keys", where(ff, lp), f"keys are {texts}")
+    # the branch with the filter is taken when a stable set is given
+    for d in defs:
+        if " if " in txt(d.value):
+            conds = [(txt(e), pol) for kind, e, pol in guards.path_conditions(ff.node, d.stmt) if kind == "if"]
+            if conds != [("stable_particles", True)]:
+                ctx.violation("C12.2", k + " :: stable-branch", where(ff, d.stmt), f"the stable-set filter applies under {conds}")
+    # while condition: recomputed from the same keys
+    cond = wl.test
+    cd = [d for d in flow.defs if isinstance(cond, ast.Name) and d.name == cond.id and d.kind == "assign"]
+    vals = sorted(txt(d.value) for d in cd)
+    anyd = [d for d in cd if txt(d.value).startswith("any(")]
+    okw = False
+    if isinstance(cond, ast.Name) and "True" in vals and len(anyd) == 1 and len(cd) == 2:
+        g = anyd[0].value.args[0]
+        if isinstance(g, ast.GeneratorExp) and len(g.generators) == 1 and not g.generators[0].ifs and txt(g.generators[0].iter) == kname \
+                and isinstance(g.elt, ast.Compare) and txt(g.elt).replace(" ", "") == f"fs[{g.generators[0].target.id}]>0":
+            # recomputed at the end of every while iteration
+            okw = any(anyd[0].stmt is s for s in wl.body)
+    elif isinstance(cond, ast.Call) and txt(cond.func) == "any":
+        okw = f" in {kname}" in txt(cond) and "> 0" in txt(cond)
+    (ctx.holds if okw else ctx.violation)("C12.2", k + " :: fixpoint", where(ff, wl),
+                                          "substitution repeats while any non-stable decaying particle is left in the final state" if okw
+                                          else f"the repeat condition is {vals or txt(cond)}: the loop can stop while decaying particles remain (or never re-evaluates)")
+    # mother first
+    ins = [c for c in pf.calls_in(ff.node) if txt(c.func) == f"{kname}.insert"]
+    okm = len(ins) == 1 and txt(ins[0]) == f"{kname}.insert(0, {kname}.pop({kname}.index(self.mother)))"
+    (ctx.holds if okm else ctx.violation)("C12.2", k + " :: mother-first", where(ff, ins[0] if ins else ff.node),
+                                          "the mother is moved to the front of the keys" if okm else "the mother is not moved to the front (keys.insert(0, keys.pop(keys.index(self.mother))))")
+    # no early exit
+    exits = [x for x in ast.walk(wl) if isinstance(x, (ast.Break, ast.Continue, ast.Return))]
+    if exits:
+        ctx.violation("C12.2", k + " :: early-exit", where(ff, exits[0]), "the substitution loop can end early")
+
+
+def c12_3(ctx, ss):
+    ff, flow = fn(ss, DECAY, F)
+    augs = [n for n in pf.walk_no_nested(ff.node) if isinstance(n, ast.AugAssign)]
+    mult = [a for a in augs if isinstance(a.op, ast.Mult)]
+    sub = [a for a in augs if isinstance(a.op, ast.Sub)]
+    add = [a for a in augs if isinstance(a.op, ast.Add)]
+    k = ckey(ff, None, "step")
+    if len(mult) != 1 or len(sub) != 1 or len(add) != 1:
+        raise AnchorMissing(f"flatten: expected one *=, one -=, one += (found {len(mult)}, {len(sub)}, {len(add)})")
+    lp = [l for l in enclosing(ff, mult[0], (ast.For,))][0]
+    kv = lp.target.id
+    # n_k read before any update
+    m = mult[0]
+    KEEP = {"fs", kv}
+    mv = flow.expand(m.value, keep=KEEP)
+    want_pow = f"self.decays[{kv}].bf ** fs[{kv}]"
+    mv_t = txt(mv)
+    okp = isinstance(m.target, ast.Name) and mv_t == want_pow
+    (ctx.holds if okp else ctx.violation)("C12.3", k + " :: factor", where(ff, m),
+                                          "visible bf *= bf(k) ** multiplicity(k)" if okp else f"the factor is `{mv_t[:80]}`, expected `{want_pow}`")
+    # init of the product
+    init = [d for d in flow.defs if isinstance(m.target, ast.Name) and d.name == m.target.id and d.kind == "assign"]
+    oki = len(init) == 1 and txt(init[0].value) in ("self.bf", "self.top_level_decay().bf", "self.decays[self.mother].bf")
+    # the mother is in keys and fs initially holds the mother's daughters, so the top-level bf must not be counted twice:
+    # vis_bf starts at self.bf and the mother is only substituted if it occurs among its own daughters (never for acyclic chains)
+    (ctx.holds if oki else ctx.violation)("C12.3", k + " :: init", where(ff, init[0].stmt if init else ff.node),
+                                          "the product starts from the top-level branching fraction" if oki else f"the product starts from `{txt(init[0].value) if init else None}`")
+    a = add[0]
+    rl = enclosing(ff, a, (ast.For,))
+    oka = txt(a.target) == "fs" and txt(a.value) == f"self.decays[{kv}].daughters" and rl and txt(flow.expand(rl[0].iter, keep=KEEP)) == f"range(fs[{kv}])"
+    (ctx.holds if oka else ctx.violation)("C12.3", k + " :: add", where(ff, a),
+                                          "the daughters of k are added multiplicity(k) times" if oka else "the daughters of k are not added exactly multiplicity(k) times")
+    s = sub[0]
+    sv = txt(flow.expand(s.value, keep=KEEP))
+    oks = txt(s.target) == f"fs[{kv}]" and sv == f"fs[{kv}]"
+    (ctx.holds if oks else ctx.violation)("C12.3", k + " :: remove", where(ff, s),
+                                          "k is removed multiplicity(k) times" if oks else f"k is decreased by `{sv}`")
+    # ordering: the multiplicity local is assigned before the first update of fs in the body
+    nk = [d for d in flow.defs if d.kind == "assign" and txt(d.value) == f"fs[{kv}]"]
+    cfg = flow.cfg
+    oko = len(nk) == 1 and all(cfg.dominates(cfg.node_of(nk[0].stmt), cfg.node_of(x)) for x in (m, a, s)) \
+        and not cfg.reachable(cfg.node_of(a), cfg.node_of(m), avoid={cfg.node_of(lp)}) and not cfg.reachable(cfg.node_of(s), cfg.node_of(rl[0]) if rl else cfg.node_of(a), avoid={cfg.node_of(lp)})
+    (ctx.holds if oko else ctx.violation)("C12.3", k + " :: read-before-update", where(ff, nk[0].stmt if nk else ff.node),
+                                          "the multiplicity is read once, before the final state is updated" if oko else "the multiplicity is re-read after the final state was updated")
+    conds = [(txt(e), pol) for kind, e, pol in guards.path_conditions(lp, m) if kind == "if"]
+    okg = conds == [(f"{kv} in fs", True)]
+    (ctx.holds if okg else ctx.violation)("C12.3", k + " :: guard", where(ff, m), "substitution happens iff k is in the final state" if okg else f"substitution is guarded by {conds}")
+
+
+def c12_4(ctx, ss):
+    ff, flow = fn(ss, DECAY, F)
+    rets = returns(ff)
+    k = ckey(ff, None, "result")
+    if len(rets) != 1:
+        raise AnchorMissing("flatten: expected one return")
+    v = rets[0].value
+    ok = isinstance(v, ast.Call) and txt(v.func) in ("self.__class__", "DecayChain", "type(self)") and len(v.args) == 2 and txt(v.args[0]) == "self.mother" \
+        and isinstance(v.args[1], ast.Dict) and len(v.args[1].keys) == 1 and txt(v.args[1].keys[0]) == "self.mother"
+    if not ok:
+        ctx.violation("C12.4", k, where(ff, rets[0]), f"flatten returns `{txt(v)[:100]}`, not a new chain {{mother: mode}}")
+        return
+    dm = v.args[1].values[0]
+    okm = isinstance(dm, ast.Call) and txt(dm.func) == "DecayMode" and len(dm.args) == 2 and txt(dm.args[0]) == "vis_bf" and txt(dm.args[1]) == "fs"
+    star = [kw for kw in dm.keywords if kw.arg is None] if isinstance(dm, ast.Call) else []
+    okmeta = len(star) == 1 and txt(star[0].value) in ("self.top_level_decay().metadata", "self.decays[self.mother].metadata")
+    (ctx.holds if okm else ctx.violation)("C12.4", k + " :: mode", where(ff, rets[0]), "the single mode is DecayMode(product, leaves, …)" if okm else f"the mode is `{txt(dm)[:80]}`")
+    (ctx.holds if okmeta else ctx.violation)("C12.4", k + " :: metadata", where(ff, rets[0]),
+                                             "the top-level model information / metadata is kept" if okmeta else "the top-level model information is not carried into the flattened chain")
+    vb, vflow = fn(ss, DECAY, "DecayChain.visible_bf")
+    r = returns(vb)
+    okv = len(r) == 1 and txt(r[0].value) == "self.flatten().bf"
+    (ctx.holds if okv else ctx.violation)("C12.4", ckey(vb, None, "visible_bf"), where(vb, vb.node), "visible_bf = self.flatten().bf" if okv else f"visible_bf is `{txt(r[0].value) if r else None}`")
+    bf, bflow = fn(ss, DECAY, "DecayChain.bf")
+    r = returns(bf)
+    okb = len(r) == 1 and txt(r[0].value) in ("self.top_level_decay().bf", "self.decays[self.mother].bf")
+    tl, _ = fn(ss, DECAY, "DecayChain.top_level_decay")
+    r2 = returns(tl)
+    okb = okb and len(r2) == 1 and txt(r2[0].value) == "self.decays[self.mother]"
+    (ctx.holds if okb else ctx.violation)("C12.4", ckey(bf, None, "bf"), where(bf, bf.node), "bf = branching fraction of self.decays[self.mother]" if okb else "bf / top_level_decay no longer denote the mother's own mode")
